@@ -435,6 +435,38 @@ pub fn run(ctx: &mut Ctx) {
         }
     }
     ctx.extra.insert("exhaustive_subspace".into(), json!({"non_genesis_blocks_up_to": n_max, "cases": exhaustive_cases}));
+    // directed: a side chain that is first longer but lighter (deferred), then heavy enough but ends
+    // in an invalid block (a reorganisation that winds above the tip's height and is rolled back),
+    // followed by a valid extension of the restored tip - over a grid of timestamp gaps (burn fees)
+    // and side-chain lengths, in creation order
+    let mut directed = 0u64;
+    {
+        let ncfg = NodeCfg { gp: 100, heartbeat: 100, social_stake: 0, loading_completed: true, prune: 8 };
+        let blk = |parent: Option<u16>, dt: u32, gt: bool, corrupt: Option<crate::adversary::BlockEdit>| BlockSpec { parent, dt, gt, creator: 0, miner: 1, txs: vec![], bad_tx: None, corrupt, back: None };
+        for dt_m in [30u32, 60, 120, 250] {
+            for dt_s in [300u32, 600, 1200, 2400, 4000] {
+                for side_len in 2..=4usize {
+                    for edit in [crate::adversary::BlockEdit::CreatorSig, crate::adversary::BlockEdit::Treasury] {
+                        // built index: 0 genesis, 1 b2, 2 m3, then the side chain, then m4
+                        let mut blocks = vec![blk(None, 250, false, None), blk(None, dt_m, true, None)];
+                        for j in 0..side_len {
+                            let len = 3 + j;
+                            let parent = if j == 0 { Some(sel_for(1, len)) } else { None };
+                            blocks.push(blk(parent, dt_s, j % 2 == 0, if j + 1 == side_len { Some(edit) } else { None }));
+                        }
+                        let len = 3 + side_len;
+                        blocks.push(blk(Some(sel_for(2, len)), 250, true, None));
+                        let case = Case { hist: HistSpec { ncfg, treasury: 0, issuance: vec![(0, 5_000_000), (1, 7_000_000)], blocks, gt_policy: false }, order: vec![] };
+                        directed += 1;
+                        for (k, w) in eval(ctx, &case, true) {
+                            ctx.violation(&k, w, json!({"check": "deferred_fork_then_failed_reorg", "case": case}));
+                        }
+                    }
+                }
+            }
+        }
+    }
+    ctx.extra.insert("directed_deferred_fork_cases".into(), json!(directed));
     let cases = ctx.tier.pick(400u32, 15_000);
     pbt_run(ctx, "random_trees", cases, arb_case(18), |c, case, counting| eval(c, case, counting));
 }
